@@ -345,3 +345,50 @@ Proof.
     inversion E; subst g'; (eapply Hcase; [reflexivity|]); unfold set_pc; cbn [returned st pc]; try rewrite Hst; try discriminate.
   intros _. apply nth_error_None. exact Hcur.
 Qed.
+
+(* ------------------------------------------------------------------ failures (C03) *)
+Lemma nth_upd_same {A} (i : nat) (v d : A) l : i < length l -> nth i (upd i v l) d = v.
+Proof. revert i; induction l as [|x l IH]; intros i H; cbn in *; [lia|]. destruct i; cbn; [reflexivity | apply IH; lia]. Qed.
+
+Lemma nth_upd_other {A} (i j : nat) (v d : A) l : i <> j -> nth j (upd i v l) d = nth j l d.
+Proof.
+  revert i j; induction l as [|x l IH]; intros i j H; [destruct i; reflexivity|].
+  destruct i, j; cbn; try reflexivity; try lia. apply IH; lia.
+Qed.
+
+Lemma length_upd {A} (i : nat) (v : A) l : length (upd i v l) = length l.
+Proof. revert i; induction l as [|x l IH]; intros i; [destruct i; reflexivity|]. destruct i; cbn; [reflexivity | rewrite IH; reflexivity]. Qed.
+
+(* the failing rank's take() raises *)
+Lemma fail_raises prog g r g' : act prog g r AFail = Some g' -> raised (nth r (ranks g') dflt) = true.
+Proof.
+  unfold act. destruct (r <? length (ranks g)) eqn:Hr; cbn [negb]; [|discriminate]. apply Nat.ltb_lt in Hr.
+  destruct (st (nth r (ranks g) dflt)); try discriminate.
+  destruct (nth_error prog (pc (nth r (ranks g) dflt))) as [s|]; [|discriminate].
+  destruct (_ || _); [|discriminate]. intros H. inversion H; subst. cbn [ranks]. rewrite nth_upd_same by exact Hr. reflexivity.
+Qed.
+
+(* a rank that raised (or returned) is never touched again: it cannot later report success *)
+Lemma dead_rank_frozen prog g e r :
+  st (nth r (ranks g) dflt) <> RRunning -> nth r (ranks (step prog g e)) dflt = nth r (ranks g) dflt.
+Proof.
+  intros Hdead. unfold step. destruct (act prog g (fst e) (snd e)) as [g'|] eqn:E; [|reflexivity].
+  unfold act in E. destruct (fst e <? length (ranks g)) eqn:Hr; cbn [negb] in E; [|discriminate].
+  destruct (Nat.eq_dec (fst e) r) as [Heq|Hne].
+  - rewrite Heq in E. destruct (st (nth r (ranks g) dflt)) eqn:Hs; try discriminate. congruence.
+  - destruct (st (nth (fst e) (ranks g) dflt)); try discriminate.
+    assert (Hk : forall x' m', g' = {| ranks := upd (fst e) x' (ranks g); meta := m' |} -> nth r (ranks g') dflt = nth r (ranks g) dflt).
+    { intros x' m' ->. cbn [ranks]. apply nth_upd_other. exact Hne. }
+    destruct (snd e); destruct (nth_error prog (pc (nth (fst e) (ranks g) dflt))) as [s|]; try discriminate;
+      try (destruct s; try discriminate);
+      repeat match type of E with (if ?b then _ else _) = _ => destruct b; try discriminate end;
+      inversion E; subst; cbn [ranks]; apply nth_upd_other; exact Hne.
+Qed.
+
+Lemma dead_rank_frozen_run prog evs : forall g r,
+  st (nth r (ranks g) dflt) <> RRunning ->
+  nth r (ranks (fold_left (step prog) evs g)) dflt = nth r (ranks g) dflt.
+Proof.
+  induction evs as [|e evs IH]; intros g r Hd; cbn [fold_left]; [reflexivity|].
+  rewrite IH; [apply dead_rank_frozen; exact Hd|]. rewrite dead_rank_frozen by exact Hd. exact Hd.
+Qed.
